@@ -34,11 +34,15 @@ def _cell(o, v):
     return (H('d', int(o), int(v)) % 1024) / 64.0
 
 
-def _data(n_obs, V, dtype):
+def _data(n_obs, V, dtype, const_cols=False):
     """data matrix of the planned dtype (integer types get integer-valued cells)"""
     if dtype.startswith('int'):
-        return np.array([[H('d', o, v) % 40 for v in range(V)] for o in range(n_obs)], dtype=dtype)
-    return np.array([[_cell(o, v) for v in range(V)] for o in range(n_obs)], dtype=dtype)
+        d = np.array([[H('d', o, v) % 40 for v in range(V)] for o in range(n_obs)], dtype=dtype)
+    else:
+        d = np.array([[_cell(o, v) for v in range(V)] for o in range(n_obs)], dtype=dtype)
+    if const_cols and V > 2:
+        d[:, 1::3] = 0           # every third voxel carries no signal at all
+    return d
 
 
 def gen_plan(rng, tier, index):
@@ -67,7 +71,8 @@ def gen_plan(rng, tier, index):
             'dtype': rng.pick(['float64', 'float64', 'float32', 'int64', 'int16']),
             'mask_layout': rng.pick(['C', 'C', 'F', 'T']), 'centre_pick': rng.pick(['all', 'all', 'subset', 'permuted']),
             'model_kind': rng.pick(['fixed', 'fixed', 'weighted', 'mixed', 'single']), 'theta_salt': rng.pick([0, 0, 1, 2, 3]),
-            'mask_vals': rng.pick(['binary', 'binary', 'binary', 'labels', 'frac', 'signed'])}
+            'mask_vals': rng.pick(['binary', 'binary', 'binary', 'labels', 'frac', 'signed']),
+            'const_cols': rng.chance(0.25)}      # voxels without signal (exact zeros outside the brain, a dead channel) are data columns like the others
     return plan
 
 
@@ -389,7 +394,7 @@ def execute(plan, ctx):
         events = np.array(events)
     if mode == 'chunk':
         n, V = plan['n_centers_big'], plan['n_vox_big']
-        data = _data(n_obs, V, plan.get('dtype', 'float64'))
+        data = _data(n_obs, V, plan.get('dtype', 'float64'), plan.get('const_cols', False))
         centers = np.array([(i * 7919 + 3) % 100003 for i in range(n)])      # not monotonic
         neighbors = [np.array(sorted({i % V, (i * 3 + 1) % V, (i * 5 + 2) % V, (i // 7) % V})) for i in range(n)]
         check_rdms(ctx, data, centers, neighbors, events, plan['method'], containers=plan.get('containers', 0))
@@ -421,7 +426,7 @@ def execute(plan, ctx):
         ctx.behaviour(mode, 'no-centres', shape_class)
         return
     V = mask.size
-    data = _data(n_obs, V, plan.get('dtype', 'float64'))
+    data = _data(n_obs, V, plan.get('dtype', 'float64'), plan.get('const_cols', False))
     sl = check_rdms(ctx, data, centers, neighbors, events, plan['method'], containers=plan.get('containers', 0))
     if mode == 'rdm' or sl is None:
         ctx.behaviour('rdm', shape_class, round(plan['radius'], 2), plan['threshold'], plan['method'], len(centers) > 1000)
